@@ -75,6 +75,32 @@ NOTES = {
              as_delivered="caught by the C19 check (RECORD-OFFSET, the rule added after the round-1 C19 seed)", strengthened="none needed"),
  "C20-2": dict(change="makeProtoEntries copies entry.Offset into the wire entry (same class as the round-1 C20 seed, different helper)", needs="AppendEntries in flight while the node compacts; visible only under -race",
              as_delivered="caught by the C20 check (OFFSET-OWNER, the rule added after the round-1 C20 seed)", strengthened="none needed"),
+ "C01-3": dict(change="InstallSnapshot keeps the log whenever it merely Contains(LastIncludedIndex): the term of the entry there is no longer compared with LastIncludedTerm", needs="node with an uncommitted stale suffix at least as long as the majority's next snapshot; rejoin through InstallSnapshot, then AppendEntries",
+             as_delivered="caught by IS-HANDLER (IS-TRIM), but IS-HANDLER was not wired to C01 — the C01 check stayed silent", strengthened="IS-HANDLER added to C01 (and, more generally, rules are now borrowed across dependent properties: C01 also evaluates the election, log-matching and snapshot-label rules)"),
+ "C02-3": dict(change="RequestVote persists BEFORE it assigns votedFor (disguised as 'skip the write when the same candidate asks again')", needs="deciding voter crashes after replying and restarts before a higher term appears; delayed same-term request of the other candidate",
+             as_delivered="caught by the C02 check (TERM-VOTE/VOTE-PERSIST)", strengthened="none needed"),
+ "C04-3": dict(change="same edit as C03-2 (matchIndex := r.log.LastIndex() read after the RPC)", needs="as C03-2", as_delivered="caught by the C04 check (SENDER/MATCH-PROV)", strengthened="none needed"),
+ "C06-3": dict(change="Compact assigns the new file position to a COPY of each kept entry and encodes the copy: the entries kept in memory keep their offsets in the old file", needs="compaction with surviving entries, conflict truncation of one of them, restart before the next compaction",
+             as_delivered="MISSED as a violation (RECORD-OFFSET answered 'undecided: fresh entry with a non-zero Offset', and it was not in C06's rules)", strengthened="RECORD-OFFSET: a record encoded from a copy of a kept entry is a violation; rule wired to C06 (and C04, C11)"),
+ "C07-3": dict(change="sendRequestVote: the two guards after the unlock window (error/shutdown; stale term) folded into 'still (pre)candidate?'", needs="real-vote reply delayed beyond an election timeout while the sender stays candidate and moves to a later term",
+             as_delivered="caught by rules of C02 (TERM-MONO, STATE-TRANSITIONS, COUNT-VOTES) — the C07 check as delivered stayed silent", strengthened="the election rules are borrowed into C07 (leader completeness rests on a real-vote quorum of one term)"),
+ "C09-3": dict(change="AddServer: 'configuration := *r.configuration' instead of Clone(): the struct copy shares the two maps with committedConfiguration", needs="leader accepts an add while partitioned; the next leader overwrites the entry; the rollback restores a committedConfiguration that already holds the phantom member",
+             as_delivered="caught by the C09 check (CONF-CHANGE/CONF-CONTENT)", strengthened="none needed"),
+ "C11-3": dict(change="same edit as C19-2 (offsets of surviving entries computed arithmetically in Compact), found independently", needs="as C19-2", as_delivered="caught by RECORD-OFFSET, which was not wired to C11 — the C11 check stayed silent", strengthened="RECORD-OFFSET and LOG-WSP added to C11"),
+ "C13-3": dict(change="RemoveTmpFiles uses os.Remove instead of os.RemoveAll", needs="crash while a snapshot writer is open (the temporary directory then holds two files)",
+             as_delivered="MISSED: WALK-RM accepted either removal call — although C13's why_tests_cant names exactly the non-empty interrupted directory", strengthened="WALK-RM: os.Remove only where the entry is known not to be a directory; SNAP-ATOMIC: Discard and the cleanup of a failed Close must remove the directory recursively"),
+ "C03-3": dict(change="sender caps a request at 1 MiB of entry data (same class as C01-2/C06-2)", needs="as C01-2 with >1 MiB before the divergence point", as_delivered="caught by the C03 check (COMMIT-FOLLOWER/SEND-TO-END, borrowed into C03 after round 2)", strengthened="none needed"),
+ "C05-3": dict(change="sendAppendEntries: the check that drops replies to requests of an earlier term moved behind the counting of the round", needs="same node leads twice; a heartbeat reply outlives a whole term; round numbers restart at 0 with the new operation manager",
+             as_delivered="MISSED, through a second engine unsoundness: CONFIRM-QUORUM's space held two mirror-image atoms about (currentTerm, request.Term) and the unlock window forgot them one after the other, each being re-derived from the other by the consistency closure",
+             strengthened="engine: coupled atoms are forgotten together and depend on whatever their terms depend on (engine tests zzMirrorWindow, zzTransitiveWindow); CONFIRM-QUORUM's discovery of the reply's term fixed"),
+ "C10-3": dict(change="becomeFollower resets the snapshot files only if the node was leader: a follower keeps its half-received snapshot across a leader change", needs="multi-chunk snapshot, leader change mid-transfer to a leader with an OLDER snapshot, restart",
+             as_delivered="MISSED: nothing said that a partial incoming snapshot dies with the term (the handler's own one-sided label test is known finding D10)", strengthened="new rule PARTIAL-RESET (C10, C11): every activation of becomeFollower ends with r.snapshot == nil"),
+ "C12-3": dict(change="same edit as C19-2/C11-3 (arithmetic offsets in Compact), a third time", needs="as C19-2", as_delivered="caught by the C12 check (RECORD-OFFSET)", strengthened="none needed"),
+ "C15-3": dict(change="on rejection nextIndex := Min(nextIndex, response.Index): the follower's hint is never allowed to RAISE nextIndex", needs="follower compacted past the leader's nextIndex for it (promotion resets nextIndex to 1; re-added member; late rejection)",
+             as_delivered="caught by the C15 check (SENDER/BACKOFF)", strengthened="none needed"),
+ "C16-3": dict(change="the vote counter becomes a field r.votes reset only in becomePreCandidate/becomeCandidate; a pre-candidate's successive prevote rounds add up", needs="connected minority of two voters in a cluster of five, partition longer than two election timeouts, heal",
+             as_delivered="reported under C16 only through side effects of the changed signature (PREVOTE-TOKEN's parameter position; ROUND-KIND panicked → undecided); the rule that names the defect, COUNT-VOTES ('not a variable local to this call: votes of different rounds would accumulate'), was not in C16's rules",
+             strengthened="COUNT-VOTES added to C16; ROUND-KIND no longer panics on a changed signature"),
  "C20": dict(change="shared (*LogEntry).toProto helper makes the wire converter read entry.Offset (unlocked) while Compact rewrites it", needs="AppendEntries request in flight (converted with the mutex released) while the node compacts its log; visible only under -race",
              as_delivered="MISSED: LOCKSET guards node state, not the fields of shared log entries (and the tables corpus had filed 'send Offset both ways' as benign)", strengthened="OFFSET-OWNER (C20): LogEntry.Offset may be accessed only by code that runs inside the bundled log; the benign case was reclassified as a must-fire mutant"),
 }
@@ -100,7 +126,7 @@ for d in sorted(glob.glob(os.path.join(ROOT, "seeded", "C*"))):
     prop = pid.split("-")[0]
     meta = {
         "property_broken": prop,
-        "origin": "written by a fresh sub-agent that was given ONLY the text of the property and a scratch worktree of /repo (prompt: seeded/_prompts/%s.txt); nothing from /verif" % (("round2/" + prop) if pid.endswith("-2") else prop),
+        "origin": "written by a fresh sub-agent that was given ONLY the text of the property and a scratch worktree of /repo (prompt: seeded/_prompts/%s.txt); nothing from /verif" % (("round2/" + prop) if pid.endswith("-2") else ("round3/" + prop) if pid.endswith("-3") else prop),
         "change": n["change"],
         "needs_in_order_to_manifest": n["needs"],
         "confirmed_by_me": confirmed,
